@@ -15,7 +15,9 @@ import (
 	"github.com/pingcap/advanced-statefulset/client/apis/apps/v1/helper"
 	pcfake "github.com/pingcap/advanced-statefulset/client/client/clientset/versioned/fake"
 	kubeapps "k8s.io/api/apps/v1"
+	v1 "k8s.io/api/core/v1"
 	metav1 "k8s.io/apimachinery/pkg/apis/meta/v1"
+	"k8s.io/apimachinery/pkg/runtime"
 	"k8s.io/apimachinery/pkg/types"
 	kubefake "k8s.io/client-go/kubernetes/fake"
 	core "k8s.io/client-go/testing"
@@ -108,6 +110,123 @@ func syJudge(prop string, c *syCase) string {
 	return ""
 }
 
+// syFull runs one full sync of the set against a small pod population through the fake controller and
+// judges the API writes recorded by the fake clientsets.
+type syFullCase struct {
+	Deleting       bool     `json:"set_deleting"`
+	Paused         bool     `json:"set_paused"`
+	Pods           []string `json:"pods"` // owned | owned-nomatch | orphan | orphan-terminating | orphan-nomatch | foreign
+	OrphanRevision bool     `json:"orphan_revision"`
+	Failure        string   `json:"failure,omitempty"`
+	Writes         []string `json:"writes,omitempty"`
+}
+
+func syFullJudge(prop string, c *syFullCase) string {
+	set := newStatefulSet(len(c.Pods))
+	set.UID = types.UID("self-uid")
+	if c.Deleting {
+		now := metav1.Now()
+		set.DeletionTimestamp = &now
+	}
+	if c.Paused {
+		helper.SetPausedReconcile(set, true)
+	}
+	tr := true
+	var objs []runtime.Object
+	objs = append(objs, set)
+	var pods []*v1.Pod
+	for i, kind := range c.Pods {
+		p := newStatefulSetPod(set, i)
+		p.Status.Phase = v1.PodRunning
+		p.Status.Conditions = []v1.PodCondition{{Type: v1.PodReady, Status: v1.ConditionTrue}}
+		p.OwnerReferences = []metav1.OwnerReference{{APIVersion: "apps.pingcap.com/v1", Kind: "StatefulSet", Name: set.Name, UID: set.UID, Controller: &tr}}
+		switch kind {
+		case "owned-nomatch":
+			p.Labels = map[string]string{"foo": "not-bar"}
+		case "orphan":
+			p.OwnerReferences = nil
+		case "orphan-terminating":
+			p.OwnerReferences = nil
+			now := metav1.Now()
+			p.DeletionTimestamp = &now
+		case "orphan-nomatch":
+			p.OwnerReferences = nil
+			p.Labels = map[string]string{"foo": "not-bar"}
+		case "foreign":
+			p.OwnerReferences = []metav1.OwnerReference{{APIVersion: "apps/v1", Kind: "ReplicaSet", Name: "rs", UID: "other-uid", Controller: &tr}}
+		}
+		pods = append(pods, p)
+		objs = append(objs, p)
+	}
+	ssc, spc := newFakeStatefulSetController(objs...)
+	spc.setsIndexer.Add(set)
+	for _, p := range pods {
+		spc.podsIndexer.Add(p)
+	}
+	kube := ssc.kubeClient.(*kubefake.Clientset)
+	pc := ssc.pcClient.(*pcfake.Clientset)
+	if c.OrphanRevision {
+		rev := &kubeapps.ControllerRevision{ObjectMeta: metav1.ObjectMeta{Name: "orphan-rev", Namespace: set.Namespace, Labels: map[string]string{}}, Revision: 1}
+		for k, v := range set.Spec.Selector.MatchLabels {
+			rev.Labels[k] = v
+		}
+		kube.Tracker().Add(rev)
+	}
+	kube.ClearActions()
+	pc.ClearActions()
+	if err := ssc.sync(set.Namespace + "/" + set.Name); err != nil && prop == "C09" {
+		return fmt.Sprintf("sync failed although no API call failed: %v", err)
+	}
+	type w struct{ verb, res, name string }
+	var ws []w
+	for _, a := range append(kube.Actions(), pc.Actions()...) {
+		switch a.GetVerb() {
+		case "create", "update", "patch", "delete":
+			name := ""
+			if n, ok := a.(interface{ GetName() string }); ok {
+				name = n.GetName()
+			}
+			if ca, ok := a.(core.CreateAction); ok && a.GetVerb() != "patch" && a.GetVerb() != "delete" {
+				if m, ok := ca.GetObject().(metav1.Object); ok {
+					name = m.GetName()
+				}
+			}
+			if a.GetResource().Resource == "events" {
+				continue
+			}
+			ws = append(ws, w{a.GetVerb(), a.GetResource().Resource + "/" + a.GetSubresource(), name})
+			c.Writes = append(c.Writes, a.GetVerb()+" "+a.GetResource().Resource+"/"+a.GetSubresource()+" "+name)
+		}
+	}
+	for _, x := range ws {
+		if c.Paused {
+			return "the set is paused but sync issued: " + x.verb + " " + x.res + " " + x.name
+		}
+		if c.Deleting && (x.res == "pods/" || x.res == "persistentvolumeclaims/") {
+			return "the set is being deleted but sync issued: " + x.verb + " " + x.res + " " + x.name
+		}
+		if c.Deleting && x.res == "controllerrevisions/" && x.verb == "patch" {
+			return "the set is being deleted but a revision was adopted: " + x.name
+		}
+		for i, kind := range c.Pods {
+			if x.res != "pods/" || x.name != pods[i].Name {
+				continue
+			}
+			switch kind {
+			case "foreign":
+				return "a pod controlled by another owner was written: " + x.verb + " " + x.name
+			case "orphan-terminating", "orphan-nomatch":
+				return "an orphan that is terminating or does not match was written (adopted?): " + x.verb + " " + x.name
+			case "owned-nomatch":
+				if x.verb == "delete" {
+					return "a pod that stopped matching was deleted instead of released: " + x.name
+				}
+			}
+		}
+	}
+	return ""
+}
+
 func TestReplaySync(t *testing.T) {
 	prop := os.Getenv("VERIF_PROPERTY")
 	if prop == "" {
@@ -145,7 +264,38 @@ func TestReplaySync(t *testing.T) {
 			found++
 		}
 	}
+	// full syncs over small pod populations
+	podKinds := []string{"owned", "owned-nomatch", "orphan", "orphan-terminating", "orphan-nomatch", "foreign"}
+	full := 0
+	for _, deleting := range []bool{false, true} {
+		for _, paused := range []bool{false, true} {
+			for _, orev := range []bool{false, true} {
+				for _, a := range podKinds {
+					for _, b := range podKinds {
+						if found >= 3 {
+							break
+						}
+						full++
+						c := &syFullCase{Deleting: deleting, Paused: paused, Pods: []string{"owned", a, b}, OrphanRevision: orev}
+						msg := syFullJudge(prop, c)
+						key := msg
+						if len(key) > 40 {
+							key = key[:40]
+						}
+						if msg == "" || seen[key] {
+							continue
+						}
+						seen[key] = true
+						c.Failure = msg
+						out, _ := json.Marshal(c)
+						fmt.Printf("REPRODUCED %s\n", out)
+						found++
+					}
+				}
+			}
+		}
+	}
 	if found == 0 {
-		fmt.Printf("NOT-REPRODUCED bounded search: %d revision populations x deleting flag on adoptOrphanRevisions\n", len(pops))
+		fmt.Printf("NOT-REPRODUCED bounded search: %d revision populations x deleting flag on adoptOrphanRevisions; %d full syncs (deleting x paused x orphan revision x 6x6 pod kinds)\n", len(pops), full)
 	}
 }
